@@ -201,3 +201,61 @@ Proof.
 Qed.
 
 End NonMarkov.
+
+(* ------------------------------------------------------------------ *)
+(* reproducibility: the trace and the arrays are functions of the draw script alone, not of
+   the flag *)
+Definition rows_res (r : result simout) : result (list row) :=
+  match r with Ok o => Ok (so_rows o) | Err e => Err e end.
+
+Lemma sis_flag_rel_rows : forall g tmin r1 r2, sis_flag_rel g tmin r1 r2 -> rows_res r1 = rows_res r2.
+Proof.
+  intros g tmin [o1|e1] [o2|e2] H; cbn in H; try contradiction; cbn [rows_res].
+  - destruct (fin_rel_read g tmin o1 o2 H) as [K _]. rewrite K. reflexivity.
+  - subst e2. reflexivity.
+Qed.
+
+Theorem fast_SIS_reproducible : forall g tau gamma tmax i0 rho tmin fuel ds full1 full2,
+  let r1 := exec (fast_SIS g tau gamma tmax i0 rho tmin full1 fuel) ds [] in
+  let r2 := exec (fast_SIS g tau gamma tmax i0 rho tmin full2 fuel) ds [] in
+  snd r1 = snd r2 /\ rows_res (fst r1) = rows_res (fst r2).
+Proof.
+  intros g tau gamma tmax i0 rho tmin fuel ds full1 full2. cbv zeta.
+  destruct (fast_SIS_flag_indep g tau gamma tmax tmin i0 rho fuel ds) as [Ht Hr]. cbv zeta in Ht, Hr.
+  apply sis_flag_rel_rows in Hr.
+  destruct full1, full2; try (split; reflexivity); [split; assumption|split; symmetry; assumption].
+Qed.
+
+Theorem fast_nonMarkov_SIS_reproducible : forall g dur delays tmax i0 rho tmin fuel ds full1 full2,
+  let r1 := exec (fast_nonMarkov_SIS g dur delays tmax i0 rho tmin full1 fuel) ds [] in
+  let r2 := exec (fast_nonMarkov_SIS g dur delays tmax i0 rho tmin full2 fuel) ds [] in
+  snd r1 = snd r2 /\ rows_res (fst r1) = rows_res (fst r2).
+Proof.
+  intros g dur delays tmax i0 rho tmin fuel ds full1 full2. cbv zeta.
+  destruct (fast_nonMarkov_SIS_flag_indep g dur delays tmax tmin i0 rho fuel ds) as [Ht Hr]. cbv zeta in Ht, Hr.
+  apply sis_flag_rel_rows in Hr.
+  destruct full1, full2; try (split; reflexivity); [split; assumption|split; symmetry; assumption].
+Qed.
+
+(* fast_nonMarkov_SIS touches the random source only to draw the initial nodes: with
+   initial_infecteds given the trace is empty on EVERY script (whatever the result);
+   otherwise it is at most the one random.sample(list(G), k) call *)
+Theorem fast_nonMarkov_SIS_trace : forall g dur delays tmax i0 rho tmin full fuel ds,
+  let tr := snd (exec (fast_nonMarkov_SIS g dur delays tmax i0 rho tmin full fuel) ds []) in
+  match i0 with
+  | Some _ => tr = []
+  | None => tr = [] \/ exists k, tr = [CSample (map knode (gnodes g)) k]
+  end.
+Proof.
+  intros g dur delays tmax i0 rho tmin full fuel ds. cbv zeta. unfold fast_nonMarkov_SIS, with_initial.
+  assert (HL : forall l ds' acc, snd (exec (match nm_run g dur delays tmax tmin full fuel l with Ok o => Ret o | Err e => Fail e end) ds' acc) = rev acc).
+  { intros l ds' acc. destruct (nm_run g dur delays tmax tmin full fuel l); reflexivity. }
+  assert (HS : forall n, let tr := snd (exec (if (n <? 0)%Z then Fail ValueErr
+              else Sample (map knode (gnodes g)) (Z.to_nat n)
+                     (fun ks => match nm_run g dur delays tmax tmin full fuel (concat ks) with Ok o => Ret o | Err e => Fail e end)) ds []) in
+            tr = [] \/ exists k, tr = [CSample (map knode (gnodes g)) k]).
+  { intro n. cbv zeta. destruct (n <? 0)%Z; [left; reflexivity|]. cbn [exec].
+    destruct (Nat.ltb _ _); [right; eexists; reflexivity|]. destruct ds as [|d ds']; [left; reflexivity|].
+    right. exists (Z.to_nat n). apply HL. }
+  destruct i0 as [l|]; destruct rho as [r|]; try reflexivity; try apply HL; apply HS.
+Qed.
